@@ -16,7 +16,7 @@ type TBlock struct {
 
 func (b TBlock) pb() *pbbstream.Block {
 	return &pbbstream.Block{Id: b.ID, ParentId: b.Parent, Number: b.Num, LibNum: b.Lib,
-		Timestamp: timestamppb.New(time.Unix(1600000000+int64(b.Num), 0))}
+		Timestamp: timestamppb.New(time.Unix(1600000000+int64(b.Num%1000000), 0))} // (heights may be anywhere in uint64: keep the time valid)
 }
 
 func tok(s string) string {
